@@ -46,7 +46,9 @@ PROPS = {
         level_text="auth_iff_record: for ANY bytes as the user's file, authentication succeeds iff the first line parses "
                    "(model of bufio.ReadString, SplitN, strconv.ParseInt/ParseUint, Go's non-strict URL base64) as a record "
                    "of a configured set with matching format id and digest equality; foreign_record_accepted uses the "
-                   "model's own independent formatter; unsupported-file rules for add/update/remove. The real store is "
+                   "model's own independent formatter; unsupported-file rules for add/update/remove, list_only_supported "
+                   "(whatever the directory holds and in whatever order, List shows only files with a supported hash) and "
+                   "listFull_reports_support. The real store is "
                    "run on systematically mutated files and compared with the model and with an independent schema reader.",
         rule="Per generated configuration ~300 file contents: records of the harness's own formatter (with/without aux, "
              "without newline), every field emptied / swapped pairwise, truncation at (sampled; thorough: every) length, "
